@@ -12,11 +12,61 @@ Definition rc_dflt : rcfg :=
        (Z.to_N rc_default_cleanup_interval) (Z.to_N rc_default_num_workers)
        (Z.to_N rc_default_busy_timeout).
 
+(* Cases are written compactly (Coq's cost of reading a cases file is proportional to the number of
+   syntax nodes): one numeral per operation and one numeral per snapshot, decoded here.
+     Limiter op:      4*dt | 1+4*(c+16*k) | 2+4*c | 3+4*(c+16*(out+256*ttl))
+     Limiter status:  4*arg+tag, tag 0: arg 0 idle 1 hook 2 wait 3 transient; tag 1: SRun arg; tag 2: SDone arg
+     RequestCache op: 4*dt | 1+4*(c+16*k) | 2+4*(c+16*(res+8*nx)), res 0 nil | 2*e+nf, nx 0 none | w+1
+     RequestCache st: 4*arg+tag, tag 0: arg 0 idle 1 transient 2 pending 3 busy; tag 1: error arg;
+                      tag 2: blocked arg; tag 3: executing arg
+     snapshot:        sum over threads i of status_i * 256^i *)
+Definition dec_lop (v : N) : lmac :=
+  let x := v / 4 in
+  match v mod 4 with
+  | 0 => MTick x
+  | 1 => MBegin (x mod 16) (x / 16)
+  | 2 => MEnter x
+  | _ => MFinish (x mod 16) ((x / 16) mod 256) (x / 16 / 256)
+  end.
+Definition dec_lst (v : N) : lstatus :=
+  let a := v / 4 in
+  match v mod 4 with
+  | 0 => match a with 0 => SIdle | 1 => SHook | 2 => SWait | _ => STransient end
+  | 1 => SRun a
+  | _ => SDone a
+  end.
+Definition dec_rop (v : N) : rmac :=
+  let x := v / 4 in
+  match v mod 4 with
+  | 0 => QTick x
+  | 1 => QStart (x mod 16) (x / 16)
+  | _ => let y := x / 16 in
+         let res := y mod 8 in
+         let nx := y / 8 in
+         QFinish (x mod 16)
+                 (if res =? 0 then None else Some (res / 2, N.odd res))
+                 (if nx =? 0 then None else Some (nx - 1))
+  end.
+Definition dec_rst (v : N) : rstatus :=
+  let a := v / 4 in
+  match v mod 4 with
+  | 0 => match a with 0 => QIdle | 1 => QTransient | 2 => QRet RPending | _ => QRet RBusy end
+  | 1 => QRet (RErr a)
+  | 2 => QBlocked a
+  | _ => QRun a
+  end.
+Fixpoint dec_snap {A : Type} (d : N -> A) (n : nat) (v : N) : list A :=
+  match n with
+  | O => []
+  | S n' => d (v mod 256) :: dec_snap d n' (v / 256)
+  end.
+
 Inductive case :=
-| CLim (n : N) (ms : list lmac) (obs : list (list lstatus))       (* Limiter, n threads *)
-| CRc (cf : rcfg) (n : N) (ms : list rmac) (obs : list (list rstatus))   (* RequestCache; cf as configured (0 = default) *)
-| CTrap (iv : N) (ms : list tmac) (obs : list bool)                (* IntervalTrap *)
-| CRef (e_nf : N) (r : option rres) (o : fres).                    (* Refresher's error mapping *)
+| CLim (n : N) (ops : list N) (obs : list N)                 (* Limiter, n threads *)
+| CRc (cf : rcfg) (n : N) (ops : list N) (obs : list N)      (* RequestCache; cf as configured (0 = default) *)
+| CTrap (iv : N) (ms : list tmac) (obs : list bool)          (* IntervalTrap *)
+| CStress (maxrun accepted runs : N).  (* free-running stress: largest number of overlapping executions
+                                         of one key, accepted starts, executions *)
 
 Fixpoint idx_filter (f : case -> bool) (i : N) (cs : list case) : list N :=
   match cs with
@@ -24,21 +74,25 @@ Fixpoint idx_filter (f : case -> bool) (i : N) (cs : list case) : list N :=
   | c :: t => if f c then i :: idx_filter f (N.succ i) t else idx_filter f (N.succ i) t
   end.
 
+Definition lobs (n : N) (obs : list N) := map (dec_snap dec_lst (N.to_nat n)) obs.
+Definition robs (n : N) (obs : list N) := map (dec_snap dec_rst (N.to_nat n)) obs.
+
 (* the model is that of the code WITH fixes/C29_gc_deleted_flag.patch (fx = true) *)
 Definition agrees (c : case) : bool :=
   match c with
-  | CLim n ms obs => list_eqb (list_eqb lstatus_eqb) (lmrun true gc_iv n linit ms) obs
-  | CRc cf n ms obs => list_eqb (list_eqb rstatus_eqb) (rmrun (rc_defaults rc_dflt cf) n rinit ms) obs
+  | CLim n ops obs => list_eqb (list_eqb lstatus_eqb) (lmrun true gc_iv n linit (map dec_lop ops)) (lobs n obs)
+  | CRc cf n ops obs =>
+      list_eqb (list_eqb rstatus_eqb) (rmrun (rc_defaults rc_dflt cf) n rinit (map dec_rop ops)) (robs n obs)
   | CTrap iv ms obs => list_eqb Bool.eqb (tmrun iv (tinit 0) ms) obs
-  | CRef e r o => fres_eqb (refresh_map e r) o
+  | CStress m a r => true      (* the schedule is the Go scheduler's: nothing to predict *)
   end.
 
 Definition C29_check (c : case) : bool :=
   match c with
-  | CLim n ms obs => lim_check obs
-  | CRc cf n ms obs => rc_check (rc_defaults rc_dflt cf) n ms obs
+  | CLim n ops obs => lim_check (lobs n obs)
+  | CRc cf n ops obs => rc_check (rc_defaults rc_dflt cf) n (map dec_rop ops) (robs n obs)
   | CTrap iv ms obs => trap_check iv ms obs
-  | CRef e r o => fres_eqb (refresh_map e r) o
+  | CStress m a r => (m <=? 1) && (a =? r)
   end.
 
 Definition mismatches (cs : list case) : list N := idx_filter (fun c => negb (agrees c)) 0%N cs.
